@@ -66,6 +66,24 @@ func buildFormat(cfg *nfpm.Config, f string) ([]byte, string, error) {
 	return buf.Bytes(), fname, err
 }
 
+// buildLikeCLI does what the command-line tool and goreleaser do: the effective settings of the format are obtained once, the
+// conventional file name is asked of them, and the SAME Info is then packaged.
+func buildLikeCLI(cfg *nfpm.Config, f string) ([]byte, string, error) {
+	pk, err := nfpm.Get(f)
+	if err != nil {
+		return nil, "", err
+	}
+	info, err := cfg.Get(f)
+	if err != nil {
+		return nil, "", err
+	}
+	info = nfpm.WithDefaults(info)
+	fname := pk.ConventionalFileName(info)
+	var buf bytes.Buffer
+	err = pk.Package(info, &buf)
+	return buf.Bytes(), fname, err
+}
+
 func errClass(err error) string {
 	if err == nil {
 		return ""
@@ -747,8 +765,20 @@ func runPkgCase(tr *Trace, pc *PkgCase, scratch string) {
 		return
 	}
 	evs = append(evs, M{"ev": "parse", "err": ""})
-	for _, f := range pc.Formats {
-		b, fname, err := buildFormat(&cfg, f)
+	if pc.Cfg.UseSDE { // (cases configured through the environment are run one at a time, see famPkg)
+		os.Setenv("SOURCE_DATE_EPOCH", strconv.Itoa(pc.Cfg.Pmt))
+		defer os.Unsetenv("SOURCE_DATE_EPOCH")
+		var err error
+		if cfg, err = parseCfg(yaml); err != nil {
+			panic(err)
+		}
+	}
+	for i, f := range pc.Formats {
+		build := buildFormat
+		if (pc.ID+i)%2 == 0 { // every other package: name first, then the same Info packaged (the CLI's sequence)
+			build = buildLikeCLI
+		}
+		b, fname, err := build(&cfg, f)
 		msg := ""
 		if err != nil {
 			msg = safeStr(strings.ReplaceAll(err.Error(), pc.Root, "$ROOT"))
@@ -1089,6 +1119,17 @@ func famPkg(tr *Trace, scratch string, seed int64, tier string, workers int, pro
 		cases = append(cases, genPkgCase(rng, id, profile, scratch, tier))
 	}
 	cases = append(cases, systematicPkgCases(&id, profile, scratch, rng, tier)...)
-	parallel(len(cases), workers, func(i int) { runPkgCase(tr, cases[i], scratch) })
+	var par, seq []*PkgCase
+	for _, pc := range cases {
+		if pc.Cfg.UseSDE {
+			seq = append(seq, pc)
+		} else {
+			par = append(par, pc)
+		}
+	}
+	parallel(len(par), workers, func(i int) { runPkgCase(tr, par[i], scratch) })
+	for _, pc := range seq { // SOURCE_DATE_EPOCH is process-wide: these run alone
+		runPkgCase(tr, pc, scratch)
+	}
 	return M{"cases": len(cases), "profile": profile, "packages": len(cases) * 5}
 }
